@@ -4,8 +4,8 @@
 (*   [k |-> "str", toks |-> set of [t, c]]  a string made of tokens t in   *)
 (*                                          case c ("l" / "u")              *)
 (*   [k |-> "int"], [k |-> "null"], [k |-> "list"]   non-string values     *)
-(* A rule is [rx |-> [t, c, t2] (t = "" : no / empty regex; t2 # "" : two  *)
-(* adjacent tokens), ic |-> BOOLEAN,                                       *)
+(* A rule is [rx |-> [t, c, t2, opt] (t = "" : no / empty regex; t2 # "" : *)
+(* two adjacent tokens; opt : the token is optional), ic |-> BOOLEAN,      *)
 (* hs |-> BOOLEAN (has select_keys), sk |-> sequence of keys].             *)
 (* The regex engine itself is not modelled: a regex is one literal token.  *)
 (***************************************************************************)
@@ -17,7 +17,8 @@ IsStr(v) == v.k = "str"
 \* the regex (a literal token) is found in the string, case-insensitively if asked
 \* rx.t2 # "": the regex is  <t> whitespace <t2>  - the two tokens adjacent, in this order, inside this one value
 TokMatch(w, t, c, ic) == w.t = t /\ (ic \/ w.c = c)
-Contains(v, rx, ic) == IF rx.t2 = "" THEN \E w \in SeqSet(v.toks) : TokMatch(w, rx.t, rx.c, ic)
+\* rx.opt: the regex is  (<t>)?  - it is found in every string, the empty one included
+Contains(v, rx, ic) == IF rx.opt THEN TRUE ELSE IF rx.t2 = "" THEN \E w \in SeqSet(v.toks) : TokMatch(w, rx.t, rx.c, ic)
                        ELSE \E i \in 1..(Len(v.toks) - 1) : TokMatch(v.toks[i], rx.t, rx.c, ic) /\ TokMatch(v.toks[i + 1], rx.t2, rx.c, ic)
 Selected(rule, e) == IF rule.hs /\ rule.sk # <<>>
                      THEN {e.data[k] : k \in SeqSet(rule.sk) \cap Keys(e)}      \* missing keys select nothing
